@@ -79,19 +79,19 @@ ADDED = {
     "C03": " Also: re-used model objects, and the reference forms T_mu = y_mu A_mu from the reported A_mu.",
     "C04": " Also: a long-lived re-filled object, negative Yukawa couplings, the dedicated getters of the physical Higgs states, gluino and massless states.",
     "C05": " Also: the setter-driven input path without pole mixing matrices on a fresh and on a long-lived object, all three call forms of convert_to_onshell, a near-degenerate left/right smuon regime, agreement of the report channels (have_warning, get_warnings, convergence records, observed residual).",
-    "C06": " Also: hierarchical points (parameters moved by up to four decades), the twin built on a fresh object / a re-filled copy / a long-lived object, supplied light fermion masses.",
-    "C07": " Also: the family of scaled models built from fresh objects, one object rescaled in place, and rescaled copies of the base point.",
-    "C08": " Also: the derived getters (beta, vevs, fermion mass matrices from Gamma_f and Pi_f with their six mixing matrices).",
+    "C06": " Also: hierarchical points (parameters moved by up to four decades), the twin built on a fresh object / a re-filled copy / a long-lived object, supplied light fermion masses, uniformly heavy spectra (common factor up to 30).",
+    "C07": " Also: the family of scaled models built from fresh objects, one object rescaled in place, and rescaled copies of the base point; base points with exact ties of mass parameters.",
+    "C08": " Also: the derived getters (beta, vevs, fermion mass matrices from Gamma_f and Pi_f with their six mixing matrices); exact zeros of lambda_6 / lambda_7 and exact special values of single inputs.",
     "C09": " Also: non-zero Delta_f in the type-vs-aligned relation, both relations through the gauge-basis constructor, the same model in both bases.",
-    "C10": " Also: each judged helper evaluation is preceded by one that differs in one group of inputs.",
+    "C10": " Also: each judged helper evaluation is preceded by one that differs in one group of inputs; exactly aligned decoupling families (gauge- and mass-basis constructions) with tighter ratio limits and a bound on the size of the bosonic part in the high band; families on a known singular configuration of the bosonic part are not judged for it.",
     "C11": " Also: a step test at the special point for the uncertainties, MA scanned down to MZ, a parabola criterion for smooth strongly curved sums, numerical noise told from discontinuity by direction reversals.",
     "C12": " Also: call histories (values-only overload first on an unseen matrix, then the full overload; full overload after an unrelated call).",
-    "C13": " Also: lines reordered inside blocks, configuration entries in another order, unknown keys next to documented ones anywhere in a block, repeated blocks at near scales after the effective ones, reduced files (defaults) read by a reader object that read another file before, rewrites through stdin and without final newline, integer-overflow key tokens.",
+    "C13": " Also: lines reordered inside blocks, configuration entries in another order, unknown keys next to documented ones anywhere in a block, repeated blocks at near scales after the effective ones, reduced files (defaults) read by a reader object that read another file before, rewrites through stdin and without final newline, integer-overflow key tokens, foreign blocks whose names resemble those of the blocks that are read.",
     "C14": " Also: systematic passes over hostile block headers, truncated lines, unreadable files with format-special names, and problem points in every output format with and without force-output.",
-    "C15": " Also: inputs that already carry the result blocks (echo), the configuration block in three shapes (ascending, shuffled, default-valued entries omitted), additivity of the THDM sub-parts.",
-    "C16": " Also: an independent tree-level THDM spectrum as tachyon oracle over random gauge-basis points, undecidable bases from a single lambda of either sign, defects just beyond each boundary, points tachyonic only without tan(beta) resummation, agreement of the THDM report channels.",
+    "C15": " Also: inputs that already carry the result blocks (echo), the configuration block in three shapes (ascending, shuffled, default-valued entries omitted), additivity of the THDM sub-parts, valid points on which only the evaluation without tan(beta) resummation fails, problem points with force-output.",
+    "C16": " Also: an independent tree-level THDM spectrum as tachyon oracle over random gauge-basis points, undecidable bases from a single lambda of either sign, defects just beyond each boundary, points tachyonic only without tan(beta) resummation, agreement of the THDM report channels, a sneutrino tachyon through the D-term alone.",
     "C17": " Also: a non-zero handle variable before the THDM constructors, gm2calc_error_str with out-of-range codes.",
-    "C18": " Also: exactly degenerate heavy Higgs states.",
+    "C18": " Also: exactly degenerate heavy Higgs states, the relations through the C functions and the helpers of gm2_uncertainty_helpers.h.",
     "C19": " Also: neighbour histories (a point right after one that differs in exactly one input, SM inputs included), object re-use, a sample of cases repeated in processes of their own (digest of all results), hard conversion points (root-finder fallback) in the sequential and threaded runs.",
     "C20": " Also: a variable reference scale with one-argument-different call histories, all twelve Yukawa getters in the bypass monitor with Higgs scales down to 1 GeV.",
 }
